@@ -8,6 +8,7 @@ package otr3
 // `go test` against the real build (VERIF_REPLAY=<assignment file>).
 
 import (
+	"sync"
 	"bytes"
 	"crypto/sha256"
 	"encoding/binary"
@@ -40,6 +41,11 @@ var vState struct {
 
 var vHarnessTable = map[string]func(){}
 
+// vMu serialises the harness API's own bookkeeping, so that a harness can be
+// run on two goroutines under the race detector (C20 replays) without the
+// bookkeeping itself being reported.
+var vMu sync.Mutex
+
 func vLoad() {
 	if vState.loaded {
 		return
@@ -65,6 +71,8 @@ func vReset() {
 }
 
 func vSym(name string) string {
+	vMu.Lock()
+	defer vMu.Unlock()
 	vLoad()
 	k := vState.counts[name]
 	vState.counts[name] = k + 1
@@ -75,6 +83,8 @@ func vSym(name string) string {
 }
 
 func vLookup(full string) *big.Int {
+	vMu.Lock()
+	defer vMu.Unlock()
 	vLoad()
 	s, ok := vState.file.Assign[full]
 	if !ok {
@@ -109,7 +119,10 @@ func vBytes(name string, n int) []byte {
 	out := make([]byte, n)
 	for i := range out {
 		key := fmt.Sprintf("%s[%d]", full, i)
-		if _, ok := vState.file.Assign[key]; ok {
+		vMu.Lock()
+		_, ok := vState.file.Assign[key]
+		vMu.Unlock()
+		if ok {
 			out[i] = byte(vLookup(key).Uint64())
 		} else {
 			// a byte the recorded assignment does not mention: deterministic
@@ -133,7 +146,9 @@ func vAssume(c bool) {
 
 func vAssert(id string, c bool) {
 	if !c {
+		vMu.Lock()
 		vState.fails = append(vState.fails, id)
+		vMu.Unlock()
 	}
 }
 
@@ -166,7 +181,11 @@ func vIteU64(c bool, a, b uint64) uint64 {
 	return b
 }
 
-func vEvent(s string) { vState.events = append(vState.events, s) }
+func vEvent(s string) {
+	vMu.Lock()
+	vState.events = append(vState.events, s)
+	vMu.Unlock()
+}
 func vNote(s string)  {}
 
 func vBytesEq(a, b []byte) bool { return bytes.Equal(a, b) }
@@ -251,7 +270,9 @@ func vObserve(name string, vs ...interface{}) {
 	for _, v := range vs {
 		s += vFmt(v) + ","
 	}
+	vMu.Lock()
 	vState.events = append(vState.events, s)
+	vMu.Unlock()
 }
 
 func vFmt(v interface{}) string {
